@@ -27,8 +27,14 @@
     * C12_Beap_fix_F13_witness — with the proposed one-line fix (`Env.fixEmptied = true`:
       `return len(bank[cost_index]) == 0, bank[cost_index]`) the same history yields `m(b,b)` and stops.
   Every theorem of the three part files holds for both values of `Env.fixEmptied`.
-  The filter half (every program all of whose sub-programs are accepted is yielded; no duplicates) is
-  compared on every generated case (exact correspondence + independent oracle), not proved.
+  THE FILTER HALF (round 2, positive rule costs, histories without merge_program):
+    * C12_Beap_filter_complete        — when the generator has stopped, every program of the start symbol all of
+                                        whose sub-programs are accepted has been yielded;
+    * C12_Beap_filter_prefix_complete — on every prefix: when a program of cost y has been yielded, every such
+                                        program of strictly smaller cost has been yielded (recursive grammars too);
+    * C12_Beap_filter_terminates_partial — |language| + 1 calls of `next` reach the end whenever the run returns;
+    * no duplicates with a filter: C02_Beap_nodup (C02 part file).
+  Not proved: termination of one `next` call (existence of a sufficient fuel).
 -/
 import PS.Proofs.Enum.BeapFilter
 import PS.Props.C02_Beap
